@@ -21,8 +21,8 @@ def vn_paths(model, func, stmts=None, env=None, **kw):
     return vn, vn.run(stmts if stmts is not None else func.body, st)
 
 
-def vn_ref(src, env=None, **kw):
-    vn = VN(None, None, **kw)
+def vn_ref(src, env=None, model=None, func=None, **kw):
+    vn = VN(model, func, **kw)
     return vn, vn.run(parse_ref(src), State(env or {}))
 
 
